@@ -527,7 +527,8 @@ def giant_vhdx(rng, dense, sector=512):
     blocks = [(enc_vhdx.ST_FULL, pos[b]) if b in pos else (_st.choice([0, 2, 3]), None) for b in range(nb)]
     # regions far into the file too (the BAT is relocated towards the end when a disk is expanded): metadata beyond 4 GiB,
     # BAT beyond 32 GiB, payload after it
-    vf, info = enc_vhdx.build(blocks, block_size=bs, sector_size=sector, disk_size=nb * bs, meta_mb=(5 << 10) + 3, bat_mb=(36 << 10) + 1)
+    # (the metadata region is 64 MiB long - its items take a few hundred bytes)
+    vf, info = enc_vhdx.build(blocks, block_size=bs, sector_size=sector, disk_size=nb * bs, meta_mb=(5 << 10) + 3, bat_mb=(36 << 10) + 1, meta_len_mb=64)
     probes = []
     for b in rng.sample(near, 5):
         o = b * bs + rng.choice([0, sector, bs - 8192])
@@ -699,13 +700,18 @@ def giant_vdi_parent(rng, dense):
     return Giant("vdi-with-parent", [cvf, pvf], opener, nb * bs, probes, meta, note={"blocks": nb, "layers": 2})
 
 
-def giant_vmdk_stream(rng, dense):
+def giant_vmdk_stream_1m(rng, dense):
+    """... with grains of 1 MiB that compress to a few KiB: a read costs what is stored, not what a grain could hold."""
+    return giant_vmdk_stream(rng, dense, grain=2048, cap_gib=256)
+
+
+def giant_vmdk_stream(rng, dense, grain=128, cap_gib=16):
     _d = DR(rng)
     """A stream-optimised extent (compressed grains, grain directory behind the data, located through the footer): opening reads
     header, footer, descriptor and directory - not the grain area, however much of it there is."""
     from dissect.hypervisor.disk.vmdk import VMDK
-    grain, gtes = 128, 512
-    cap = (16 << 30) // 512
+    gtes = 512
+    cap = (cap_gib << 30) // 512
     ng = cap // grain
     want = sorted({0, 3, gtes, ng // 2, ng - 1} | ({x for x in (_d.randrange(ng) for _ in range(1500)) if x != ng // 3} if dense else set()))
     ents = [("U", 0)] * ng
@@ -722,7 +728,8 @@ def giant_vmdk_stream(rng, dense):
         probes.append((o, 4096, patterns.cpat(csalt + ents[g][1], o - g * grain * 512, 4096)))
     probes.append(((ng // 3) * grain * 512 + 77, 6000, bytes(6000)))
     meta = 512 + 1024 + 2048 + ngt * 4 + sum(present) * gtes * 4
-    return Giant("vmdk-stream", [vf], lambda: VMDK(vf), cap * 512, probes, meta, c0=64 << 10, note={"grains": len(want), "capacity_sectors": cap})
+    return Giant("vmdk-stream" if grain == 128 else f"vmdk-stream-grain{grain}", [vf], lambda: VMDK(vf), cap * 512, probes, meta, c0=64 << 10,
+                 note={"grains": len(want), "capacity_sectors": cap, "grain_sectors": grain})
 
 
 def giant_vhdx_diff(rng, dense):
@@ -810,7 +817,7 @@ def giant_vhdx_4k(rng, dense):
     return giant_vhdx(rng, dense, sector=4096)
 
 
-BUILDERS = [giant_qcow2, giant_qcow2_2m, giant_qcow2_4k, giant_qcow2_backing, giant_vmdk_se, giant_vmdk_hosted, giant_vmdk_descriptor, giant_vmdk_flat, giant_vmdk_raw_handle, giant_vmdk_stream, giant_vdi_parent, giant_vhdx_diff, giant_vhdx, giant_vhdx_4k, giant_vhd, giant_vdi, giant_hds, giant_hds_v1]
+BUILDERS = [giant_qcow2, giant_qcow2_2m, giant_qcow2_4k, giant_qcow2_backing, giant_vmdk_se, giant_vmdk_hosted, giant_vmdk_descriptor, giant_vmdk_flat, giant_vmdk_raw_handle, giant_vmdk_stream, giant_vmdk_stream_1m, giant_vdi_parent, giant_vhdx_diff, giant_vhdx, giant_vhdx_4k, giant_vhd, giant_vdi, giant_hds, giant_hds_v1]
 
 
 def measure(g):
